@@ -178,7 +178,7 @@ func mutexClass(info *types.Info, recv ast.Expr) string {
 			if pt, ok := t.(*types.Pointer); ok {
 				t = pt.Elem()
 			}
-			return stripTypeArgs(shorten(t.String())) + "." + sel.Sel.Name
+			return canonTypeName(stripTypeArgs(shorten(t.String()))) + "." + canonFieldName(t, sel.Sel.Name)
 		}
 	}
 	if tv, ok := info.Types[recv]; ok {
@@ -269,7 +269,11 @@ func (p *Prog) lockWrappers() map[string]wrapperSum {
 		if !ok || objOf(info, inner.X) != recv {
 			continue
 		}
-		w[k] = wrapperSum{Field: inner.Sel.Name, Class: mutexClass(info, inner), Mode: mode, Acq: acq, Try: try}
+		fieldName := inner.Sel.Name
+		if tv, ok := info.Types[inner.X]; ok {
+			fieldName = canonFieldName(tv.Type, fieldName)
+		}
+		w[k] = wrapperSum{Field: fieldName, Class: mutexClass(info, inner), Mode: mode, Acq: acq, Try: try}
 	}
 	p.wrappers = w
 	return w
@@ -478,6 +482,11 @@ func (p *Prog) lockOpOf(pkg *packages.Package, c *ast.CallExpr) *LockOp {
 	}
 	if mode, acq, try, ok := syncOp(fn); ok {
 		path := exprPath(sel.X)
+		if in, isSel := ast.Unparen(sel.X).(*ast.SelectorExpr); isSel {
+			if tv, ok := info.Types[in.X]; ok {
+				path = exprPath(in.X) + "." + canonFieldName(tv.Type, in.Sel.Name)
+			}
+		}
 		class := mutexClass(info, sel.X)
 		if strings.HasSuffix(class, ".(embedded)") {
 			path += ".(embedded)"
